@@ -1,13 +1,22 @@
 // C17 — block parts and Merkle proofs: only genuine parts accepted, exact
 // reassembly.  Exhaustive small-scope enumeration on the real types.PartSet and
-// go-merkle simple tree (DESIGN §5 C17).
+// go-merkle simple tree (DESIGN §5 C17).  Concurrent deliveries of parts (the
+// reactor delivers from one goroutine per peer) are a separate binary
+// (props/c17sched: SCHED exploration of every interleaving up to a preemption
+// bound, built with the import-rewriting overlay by prebuild.sh); runSchedPart
+// runs it and merges its evidence and violations.
 package main
 
 import (
 	"bytes"
+	"encoding/json"
 	"fmt"
 	"io"
 	"io/ioutil"
+	"os"
+	"os/exec"
+	"path/filepath"
+	"strings"
 	"sync/atomic"
 
 	"verif/core"
@@ -572,6 +581,9 @@ func main() {
 	c := &ctx{run: run, classes: core.NewCounter(), samples: core.NewSampler(6, run.Seed)}
 
 	if run.ReplayPath != "" {
+		if replaySched(run) {
+			return
+		}
 		var k partCase
 		if err := run.ReplayCase(&k); err != nil {
 			core.Fatal("cannot load replay: %v", err)
@@ -648,11 +660,11 @@ func main() {
 	})
 	c.samples.Add(partCase{Kind: "merkle", Leaves: 7, ProofOf: 3, Index: 3, Total: 8, Leaf: 3})
 
-	run.Finish(core.Coverage{
-		"states":                        states.Len() + maxLeaves,
-		"transitions":                   int(c.evals),
-		"traces_validated_against_impl": int(c.evals),
-		"evaluations":                   int(c.evals),
+	cov := core.Coverage{
+		"states":                        int64(states.Len() + maxLeaves),
+		"transitions":                   c.evals,
+		"traces_validated_against_impl": c.evals,
+		"evaluations":                   c.evals,
 		"distinct_nontrivial":           c.classes.Len(),
 		"rule":                          "every (data length 0..40, part size 1..9, byte pattern distinct|zero) × {every arrival permutation with one duplicate at every position for totals<=5; identity, reverse and adjacent transpositions above} and × every single-field mutant (index −2,−1,i±1,total,total+1,2^31; byte flips first/middle/last, append, drop, empty; each aunt flipped/dropped/duplicated, a junk aunt inserted at every position, extra aunt, nil aunts; proof of every other part; every other part under this index) × receiver pre-state {empty, all others present, complete}; Merkle trees of 1..17 leaves × every leaf's proof × every (index,total) in [−2,19]² × {own leaf, neighbours}; distinct_nontrivial counts distinct (mutant kind, pre-state, verdict) classes observed",
 		"arrival_cases":                 arrivals,
@@ -662,8 +674,151 @@ func main() {
 		"samples":                       c.samples.List(),
 		"exhaustive":                    true,
 		"bounds":                        map[string]int{"max_len": maxLen, "max_part_size": maxPS, "max_leaves": maxLeaves},
-	}, []string{
+	}
+	// part (b): concurrent deliveries / readers on one PartSet under the controlled scheduler
+	schedAssumptions := runSchedPart(run, cov)
+	run.Finish(cov, append([]string{
 		"collision resistance of the configured hash (ripemd160): 'accept iff bit-identical' is decided by comparing with the genuine part",
 		"the model is the implementation itself: every enumerated case is executed on the real types.PartSet / go-merkle code (traces_validated_against_impl = all)",
-	})
+	}, schedAssumptions...))
+}
+
+// ---------------------------------------------------------------- SCHED part (separate binary)
+
+// runSchedPart runs part (b), the controlled-scheduler exploration of
+// concurrent deliveries to one PartSet (props/c17sched, a separate binary because it is built with
+// the import-rewriting overlay), in a private root and merges its evidence and
+// violations into this run.  Returns the assumptions of that part.
+func runSchedPart(run *core.Run, cov core.Coverage) []string {
+	bin := schedBin()
+	if alt := os.Getenv("VERIF_C17SCHED_BIN"); alt != "" {
+		bin = alt
+	}
+	if _, err := os.Stat(bin); err != nil {
+		core.Fatal("the SCHED binary %s is missing (props/c17/prebuild.sh builds it)", bin)
+	}
+	sub := filepath.Join(run.WorkDir(), "schedroot")
+	os.RemoveAll(sub)
+	os.MkdirAll(sub, 0755)
+	if b, err := ioutil.ReadFile(filepath.Join(core.Root, "known_findings.txt")); err == nil {
+		ioutil.WriteFile(filepath.Join(sub, "known_findings.txt"), b, 0644)
+	}
+	cmd := exec.Command(bin, run.Tier)
+	cmd.Env = append(os.Environ(), "VERIF_ROOT="+sub, "VERIF_TIER="+run.Tier, "C17B_RACE_BIN="+filepath.Join(filepath.Dir(bin), "c17race"))
+	out, err := cmd.CombinedOutput()
+	code := 0
+	if ee, ok := err.(*exec.ExitError); ok {
+		code = ee.ExitCode()
+	} else if err != nil {
+		core.Fatal("cannot run the SCHED part (%s): %v", bin, err)
+	}
+	if code != 0 && code != 1 {
+		tail := string(out)
+		if len(tail) > 3000 {
+			tail = tail[len(tail)-3000:]
+		}
+		core.Fatal("SCHED part failed with exit %d:\n%s", code, tail)
+	}
+	var ev struct {
+		Coverage    map[string]interface{} `json:"coverage"`
+		Assumptions []string               `json:"assumptions"`
+	}
+	if b, err := ioutil.ReadFile(filepath.Join(sub, "evidence", "C17.json")); err == nil {
+		json.Unmarshal(b, &ev)
+	}
+	if ev.Coverage == nil {
+		core.Fatal("SCHED part left no evidence (exit %d)", code)
+	}
+	cov["sched"] = ev.Coverage
+	for _, k := range []string{"states", "transitions", "traces_validated_against_impl", "evaluations"} {
+		a, ok1 := cov[k].(int64)
+		b, ok2 := ev.Coverage[k].(float64)
+		if ok1 && ok2 {
+			cov[k] = a + int64(b)
+		}
+	}
+	if ex, ok := ev.Coverage["exhaustive"].(bool); ok && !ex {
+		cov["sched_exhaustive"] = false
+	}
+	for _, l := range strings.Split(string(out), "\n") {
+		if strings.HasPrefix(l, "KNOWN-FINDING:") {
+			fmt.Println(l)
+		}
+	}
+	arts, _ := filepath.Glob(filepath.Join(sub, "replays", "C17", "*.json"))
+	for _, a := range arts {
+		b, err := ioutil.ReadFile(a)
+		if err != nil {
+			continue
+		}
+		var art struct {
+			Sig    map[string]string `json:"sig"`
+			Case   json.RawMessage   `json:"case"`
+			Detail string            `json:"detail"`
+		}
+		if json.Unmarshal(b, &art) != nil {
+			continue
+		}
+		if art.Sig == nil {
+			art.Sig = map[string]string{}
+		}
+		art.Sig["part"] = "sched"
+		run.Report(art.Sig, map[string]interface{}{"engine": "SCHED", "sched_case": art.Case}, art.Detail)
+	}
+	if code == 1 && len(arts) == 0 {
+		core.Fatal("SCHED part reported a violation but left no artefact")
+	}
+	if os.Getenv("VERIF_MUT_ROOT") != "" && os.Getenv("VERIF_C17SCHED_BIN") == "" && os.Getenv("SEED_KEEP") == "" && strings.HasPrefix(filepath.Base(filepath.Dir(bin)), "c17sched-mut-") {
+		// single-use build of a seeded run (kept with SEED_KEEP=1 so that its artefacts can be replayed)
+		os.RemoveAll(filepath.Dir(bin))
+	}
+	return ev.Assumptions
+}
+
+// replaySched hands a SCHED artefact to the SCHED binary.
+func replaySched(run *core.Run) bool {
+	b, err := ioutil.ReadFile(run.ReplayPath)
+	if err != nil {
+		return false
+	}
+	var art struct {
+		Case struct {
+			Engine    string          `json:"engine"`
+			SchedCase json.RawMessage `json:"sched_case"`
+		} `json:"case"`
+		Sig    map[string]string `json:"sig"`
+		Detail string            `json:"detail"`
+	}
+	if json.Unmarshal(b, &art) != nil || art.Case.Engine != "SCHED" {
+		return false
+	}
+	tmp := filepath.Join(run.WorkDir(), "sched-replay.json")
+	nb, _ := json.Marshal(map[string]interface{}{"property": "C17", "engine": "SCHED", "sig": art.Sig, "case": art.Case.SchedCase, "detail": art.Detail})
+	ioutil.WriteFile(tmp, nb, 0644)
+	bin := schedBin()
+	cmd := exec.Command(bin, "replay", tmp)
+	cmd.Stdout, cmd.Stderr = os.Stdout, os.Stderr
+	err = cmd.Run()
+	if ee, ok := err.(*exec.ExitError); ok {
+		os.Exit(ee.ExitCode())
+	}
+	os.Exit(0)
+	return true
+}
+
+// schedBin locates the SCHED binary that props/c17/prebuild.sh built: below
+// the .work directory this binary itself lives in (VERIF_ROOT may be a private
+// root), in a directory of its own for seeded runs (VERIF_MUT_ROOT).
+func schedBin() string {
+	work := filepath.Join("/verif", ".work")
+	if self, err := os.Executable(); err == nil {
+		if d := filepath.Dir(filepath.Dir(self)); filepath.Base(d) == ".work" {
+			work = d
+		}
+	}
+	dir := "c17sched"
+	if m := os.Getenv("VERIF_MUT_ROOT"); m != "" {
+		dir += "-mut-" + filepath.Base(m)
+	}
+	return filepath.Join(work, dir, "bin-for-c17")
 }
